@@ -284,7 +284,7 @@ pub fn handle_pexpire(storage: &Arc<StorageEngine>, db: usize, parts: &[RespFram
     
     let milliseconds = match &parts[2] {
         RespFrame::BulkString(Some(bytes)) => {
-            match String::from_utf8_lossy(bytes).parse::<u64>() {
+            match String::from_utf8_lossy(bytes).parse::<i64>() {
                 Ok(n) => n,
                 Err(_) => return Ok(RespFrame::error("ERR value is not an integer or out of range")),
             }
@@ -292,7 +292,13 @@ pub fn handle_pexpire(storage: &Arc<StorageEngine>, db: usize, parts: &[RespFram
         _ => return Ok(RespFrame::error("ERR invalid milliseconds format")),
     };
     
-    let result = storage.pexpire(db, key, milliseconds)?;
+    // A time that is not positive deletes the key at once (as EXPIRE does)
+    if milliseconds <= 0 {
+        let deleted = storage.delete(db, key)?;
+        return Ok(RespFrame::Integer(if deleted { 1 } else { 0 }));
+    }
+    
+    let result = storage.pexpire(db, key, milliseconds as u64)?;
     Ok(RespFrame::Integer(if result { 1 } else { 0 }))
 }
 
